@@ -25,6 +25,7 @@ import CaddyModel.C15.Witness
 import CaddyModel.Gen.Encode
 import CaddyModel.Gen.ProxyFlush
 import CaddyModel.Gen.DirectiveOrder
+import CaddyModel.Gen.Sidecar
 
 namespace CaddyModel.C15
 
@@ -743,6 +744,11 @@ theorem sidecar_header_first_mislabels :
 theorem sidecar_error_keeps_header :
     serveFile false [vGzip] (fun _ => true) (fun _ => .ok) false true false = .error 405 (some vGzip) ∧
     serveFile false [vGzip] (fun _ => true) (fun _ => .ok) true false false = .error 500 (some vGzip) := by decide
+
+/-- the source announces the sidecar's coding after the sidecar is open — the `headerFirst = false` the theorems
+    above are about (regenerated from fileserver/staticfiles.go) -/
+theorem sidecar_header_after_open_matches_source :
+    CaddyModel.Gen.fileServerSidecarHeaderAfterOpen = true := by decide
 
 /-! ### the caller contract: calls into the response writer are serialised (reverse_proxy's two goroutines)
 
